@@ -135,6 +135,9 @@ pub mod codeq {
     /// the canonical encoding of a value (spec side of codeq::{Encode, Decode})
     pub trait EncSpec: Sized {
         spec fn enc(&self) -> Seq<u8>;
+        /// which error kinds a decoder of this type may report for a given remaining input (C09: a complete but invalid record
+        /// must not be reported as UnexpectedEof, which recovery treats as an incomplete tail)
+        spec fn err_ok(input: Seq<u8>, k: super::IoErrorKind) -> bool;
     }
     pub trait Encode: EncSpec {
         fn encode<W: rw::Write>(&self, w: W) -> (res: Result<usize, io::Error>)
@@ -147,7 +150,8 @@ pub mod codeq {
             ensures
                 // C12 (S): a decoded value's encoding is exactly the consumed bytes; nothing beyond is consumed
                 res is Ok ==> r.kept() && r.rem().len() >= res->Ok_0.enc().len() && r.rem().take(res->Ok_0.enc().len() as int) == res->Ok_0.enc() && r.after() == r.rem().skip(res->Ok_0.enc().len() as int)
-                    && r.pos_after() == r.pos() + res->Ok_0.enc().len();
+                    && r.pos_after() == r.pos() + res->Ok_0.enc().len(),
+                res is Err ==> Self::err_ok(r.rem(), res->Err_0.kind);
     }
 }
 use rw::Read as _;
@@ -159,11 +163,13 @@ use codeq::EncSpec as _;
 // ---- codeq primitive impls (ASSUMED): u8 is one byte, Option<T> is a tag byte 0 / 1 followed by the value ----
 impl codeq::EncSpec for u8 {
     open spec fn enc(&self) -> Seq<u8> { seq![*self] }
+    open spec fn err_ok(input: Seq<u8>, k: IoErrorKind) -> bool { true }
 }
 impl codeq::Encode for u8 { #[verifier::external_body] fn encode<W: rw::Write>(&self, w: W) -> (res: Result<usize, io::Error>) { unimplemented!() } }
 impl codeq::Decode for u8 { #[verifier::external_body] fn decode<R: rw::Read>(r: R) -> (res: Result<Self, io::Error>) { unimplemented!() } }
 impl<T: codeq::EncSpec> codeq::EncSpec for Option<T> {
     open spec fn enc(&self) -> Seq<u8> { match self { None => seq![0u8], Some(v) => seq![1u8] + v.enc() } }
+    open spec fn err_ok(input: Seq<u8>, k: IoErrorKind) -> bool { true }
 }
 impl<T: codeq::Encode> codeq::Encode for Option<T> { #[verifier::external_body] fn encode<W: rw::Write>(&self, w: W) -> (res: Result<usize, io::Error>) { unimplemented!() } }
 impl<T: codeq::Decode> codeq::Decode for Option<T> { #[verifier::external_body] fn decode<R: rw::Read>(r: R) -> (res: Result<Self, io::Error>) { unimplemented!() } }
